@@ -87,7 +87,7 @@ def ops(S):
     d = S.depth
     for ln in range(1, d + 1):
         for pt in itertools.product(*[range(S.shape[i]) for i in range(ln)]):
-            for mode in ("alloc", "noalloc", "dflt"):
+            for mode in ("alloc", "noalloc", "dflt", "dflt0"):
                 out.append(("get", pt, mode))
             if ln < d:
                 out.append(("ref", pt, "none"))
@@ -108,6 +108,11 @@ def ops(S):
                     acts.append("dec")
                 for a in acts:
                     out.append(("ref", pt, a))
+                # assignment from another live handle (a box on the right-hand side): the value is copied,
+                # later updates of the source point do not reach this one
+                for i, (q, _) in enumerate(S.handles):
+                    if q != pt:
+                        out.append(("ref", pt, "cp%d" % i))
     for i in range(len(S.handles)):
         for v in (0, 1, 2):
             out.append(("hwrite", i, v))
@@ -158,6 +163,8 @@ def step(S, op):
                 r = acc.getPayload(*pt)
             elif mode == "noalloc":
                 r = acc.getPayload(*pt, allocate=False)
+            elif mode == "dflt0":
+                r = acc.getPayload(*pt, allocate=False, default=0)      # a falsy caller-supplied default
             else:
                 r = acc.getPayload(*pt, allocate=False, default=7)
             if _snap(T) != b:
@@ -170,6 +177,9 @@ def step(S, op):
                 elif mode == "noalloc":
                     exp = None
                     ok = Payload.get(r) is None
+                elif mode == "dflt0":
+                    exp = 0
+                    ok = r is not None and Payload.get(r) is not None and Payload.get(r) == 0
                 else:
                     exp = 7
                     ok = Payload.get(r) == 7
@@ -224,6 +234,10 @@ def step(S, op):
                     _put(S, pt, S.model.get(pt, S.default) - 1)
                 elif act == "keep":
                     S.handles = (S.handles + [(pt, r)])[-2:]
+                elif act.startswith("cp"):
+                    q, h = S.handles[int(act[2:])]
+                    r <<= h
+                    _put(S, pt, S.model.get(q, S.default))
             if content(T.getRoot(), S.default) != S.model:
                 V("getPayloadRef", "content", dict(S.model), content(T.getRoot(), S.default), "act:" + act)
         elif k == "hwrite":
